@@ -22,4 +22,34 @@ int gh_repr_hit, gh_code_hit;  /* answers of the two lookups made for the curren
 const char *gh_repr_arg; int gh_code_arg;
 int gh_defect;                 /* a documented defect has been delivered by the callbacks / seen by the lookups */
 int gh_added; const char *gh_add_name; int gh_add_code;   /* terminals added */
+/* yaep_read_grammar, body of the rule-intake loop (RG.rule): what the callback delivered for the current rule */
+int gh_rl, gh_tl;              /* number of right-hand side names (index of the NULL) / of translation numbers (index of the first negative) */
+const char **gh_rhs0;          /* the right-hand side array as delivered */
+int *gh_transl;                /* the translation array as delivered (or NULL) */
+const char *gh_anode;          /* the abstract node name as delivered (or NULL) */
+const char *gh_lhs; int gh_cost;   /* left-hand side name and cost as delivered */
+int gh_t;                      /* ghost index into the translation */
+int gh_tv[8];                  /* the delivered translation numbers, by value (entries from gh_tl on: -1); the array itself is outside every frame */
+#include <limits.h>
+#define GH_NILT INT_MAX        /* == YAEP_NIL_TRANSLATION_NUMBER (checked by a static assertion in rgrule.spec.c) */
+/* what the symbol-table and rule-storage callees were asked and answered while the current rule is taken in */
+int gh_first;                  /* this is the first rule: $S, $eof and the start rule are made */
+int gh_nfind, gh_fr_hit, gh_fr_term, gh_fr_ax, gh_fr_em; size_t gh_fr_arg;   /* lookups by name: count, and argument (its address as a number: a ghost POINTER tied to a
+   string literal by an assumed equality blocks the path in cbmc 6.11) / answer of the last one */
+int gh_lhs_term;               /* the left-hand side name was found as a terminal */
+struct symb; struct rule;
+size_t gh_cur_sym, gh_cur_lhs;   /* symbol found or made for the last name looked up / for the left-hand side (addresses as numbers, compared only) */
+int gh_nadd_nt, gh_nadd_t, gh_ns_calls, gh_nsa, gh_stops;   /* calls of symb_add_nonterm, symb_add_term, rule_new_start, rule_new_symb_add, rule_new_stop */
+struct rule *gh_sr;            /* the start rule $S : <start> $eof */
+/* the arrays of one rule are capped at 8 entries in RG.rule: universal facts about them are written out entry by entry */
+#define GH_ALL8(P) (P (0) && P (1) && P (2) && P (3) && P (4) && P (5) && P (6) && P (7))
+#define GH_ANY8(P) (P (0) || P (1) || P (2) || P (3) || P (4) || P (5) || P (6) || P (7))
+/* translation entry K (already processed when K < I) counts as a child: it names a right-hand side position, or is `-' in a rule with abstract node */
+#define GH_CNT1(k, i) (((k) < (i)) & ((gh_tv[k] < gh_rl) | ((gh_tv[k] == GH_NILT) & (gh_anode != NULL))))
+/* position E of the order array while the translation is processed up to (not including) entry i: below i; unset unless one of the processed entries names E
+   (written with constant indices only: a nested symbolic index makes symex blow up) */
+#define GH_NAMED1(e, k, i) (((k) < (i)) & (gh_tv[k] == (e)))
+#define GH_NAMED(e, i) (GH_NAMED1 (e, 0, i) | GH_NAMED1 (e, 1, i) | GH_NAMED1 (e, 2, i) | GH_NAMED1 (e, 3, i) | GH_NAMED1 (e, 4, i) | GH_NAMED1 (e, 5, i) | GH_NAMED1 (e, 6, i) | GH_NAMED1 (e, 7, i))
+#define GH_ORD(e) ((e) >= gh_rl || (rule->order[e] >= -1 && rule->order[e] < i && (GH_NAMED (e, i) | (rule->order[e] == -1))))
+#define GH_CNT(i) (GH_CNT1 (0, i) + GH_CNT1 (1, i) + GH_CNT1 (2, i) + GH_CNT1 (3, i) + GH_CNT1 (4, i) + GH_CNT1 (5, i) + GH_CNT1 (6, i) + GH_CNT1 (7, i))
 #endif
